@@ -156,63 +156,114 @@ def r2(ctx):
     return inner, il, ipb
 
 
-def r3(ctx, inner, il, ipb):
+def _loss_call(e5, t):
+    """args of `objective.loss(p, t)` when t is that call or its first component (the loss value)"""
+    if isinstance(t, tuple) and t and t[0] == "proj" and t[2] == 0:
+        t = t[1]
+    return e5.is_call(t, "loss", 3)
+
+
+def r3(ctx, inner=None, il=None, ipb=None):
+    """accuracy rule, decided on the E5 summary of Network::validate: per sample, which value is reported as accuracy under
+    which conditions on the last layer / its activation / the target length (independent of match-vs-if-let, helper
+    extraction, early returns, branch order)."""
     c = ctx.crate
     fn = ctx.fn("network::Network::validate")
-    acc = il.get("acc")
-    if acc is None:
-        raise Unestablished("no `let acc`", c.loc(fn, inner))
-    m = strip(acc[1]["init"])
-    ok = m.get("k") == "match" and pretty(strip(m["scrut"])) == "self.layers.last().unwrap()"
-    ctx.check("R12.3", "selected-by-last-layer", ok, "accuracy-selector:" + short(pretty(m.get("scrut")), 50) if m.get("k") == "match" else "accuracy-selector", c.loc(fn, m), "match self.layers.last().unwrap()")
-    if m.get("k") != "match":
-        return
-    dense = [a for a in m["arms"] if e4.arm_variant(a)[0] == "network::Layer::Dense"]
-    if len(dense) != 1:
-        raise Unestablished("no Dense arm", c.loc(fn, m))
-    m2 = strip(dense[0]["body"])
-    ok = m2.get("k") == "match" and pretty(strip(m2["scrut"])).endswith(".activation")
-    ctx.check("R12.3", "selected-by-activation", ok, "activation-selector", c.loc(fn, m2), "match layer.activation")
-    if m2.get("k") != "match":
-        return
-    tname, thid = ipb[1]
-    for arm in m2["arms"]:
-        vp, _ = e4.arm_variant(arm)
-        body = strip(arm["body"])
-        while body.get("k") == "blk" and not body["b"]["stmts"]:
-            body = strip(body["b"]["tail"])
-        if vp == "activation::Function::Softmax":
-            ok = (body.get("k") == "if" and pretty(strip(body["c"])) in ("(target.argmax() == prediction.argmax())", "(prediction.argmax() == target.argmax())")
-                  and e4.lit_value(_tail(body["th"])) == "1.0" and e4.lit_value(_tail(body["el"])) == "0.0")
-            ctx.check("R12.3", "softmax-argmax-agreement", ok, "softmax-accuracy:" + short(pretty(body), 80), c.loc(fn, body), "1 iff argmax(target) == argmax(prediction)")
-        elif vp == "_":
-            st = top_stmts_of(arm["body"])
-            env = {}
-            tl = strip(st[-1])
-            okg = False
-            got = "?"
-            if tl.get("k") == "if":
-                # single-output branch and general branch
-                try:
-                    cond = pretty(strip(tl["c"]))
-                    single = e1.Norm(c).norm(tl["th"])
-                    # general: sum over zipped pairs of ite(|t-p| < tol) / len
-                    gen = strip(_tail(tl["el"]))
-                    cl = [x for x in walk(gen) if x.get("k") == "closure"]
-                    pb = pat_binds(cl[0]["params"][0])
-                    N = e1.Norm(c, {pb[0][1]: Rat.atom("t"), pb[1][1]: Rat.atom("p")})
-                    per = N.norm(cl[0]["body"])
-                    tol = Rat.atom("tol")
-                    want = ite(cmp_atom("Lt", r_abs(Rat.atom("t") - Rat.atom("p")), tol), 1, 0)
-                    want1 = ite(cmp_atom("Lt", r_abs(Rat.atom("prediction[0]") - Rat.atom("target[0]")), tol), 1, 0)
-                    names, bs = chain_of(gen["l"]) if gen.get("k") == "bin" else ([], None)
-                    div_ok = gen.get("k") == "bin" and gen["op"] == "Div" and pretty(strip(gen["r"])) in ("(target.len() as _)",) and names == ["iter", "zip", "map", "sum"]
-                    okg = per == want and single == want1 and div_ok and cond == "(target.len() == 1)"
-                    got = "per=%s single=%s chain=%s" % (per, single, ".".join(names))
-                except (ValueError, KeyError, IndexError, TypeError) as e:
-                    got = "unrecognised: %s" % e
-            ctx.check("R12.3", "tolerance-rule", okg, "tolerance-accuracy:" + short(got, 100), c.loc(fn, tl), "mean over components of [|t-p| < tol] (strict)",
-                      "the non-softmax accuracy is computed as %s" % got)
+    from .. import e5
+    E = e5.Exec(c, fn)
+    E.run_fn()
+    # the per-sample closure: its value is a pair whose first component is objective.loss(prediction, target)
+    cand = []
+    for lid, S in E.loop_summaries.items():
+        if S.get("kind") != "closure":
+            continue
+        live = [p for p in S["paths"] if p.exit is None]
+        if live and all(isinstance(p.val, tuple) and p.val[0] == "tup" and len(p.val[1]) == 2 and _loss_call(e5, p.val[1][0]) is not None for p in live):
+            cand.append((lid, S))
+    if len(cand) != 1:
+        raise Unestablished("validate: expected one per-sample closure returning (loss, accuracy), found %d" % len(cand), c.loc(fn))
+    lid, S = cand[0]
+    where = c.loc(fn, S["node"])
+    live = [p for p in S["paths"] if p.exit is None]
+    la = _loss_call(e5, live[0].val[1][0])          # (objective, prediction, target)
+    P, Tt = la[1], la[2]
+    pa = e5.is_call(P, "predict", 2)
+    ctx.check("R12.3", "loss-of-prediction-and-target", pa is not None and pa[0] == ("p", "self") and la[0] == ("field", ("p", "self"), "objective"), "loss-arguments:" + short(e5.show(live[0].val[1][0], 2), 80), where,
+              "loss = self.objective.loss(&self.predict(input), target)")
+    L = None
+    ok_last, ok_soft, ok_tol = True, True, True
+    n_soft = n_single = n_general = 0
+    why = []
+    for p in live:
+        acc = p.val[1][1]
+        facts = list(p.pc)
+        dense = [(t, pol) for (t, pol) in facts if isinstance(t, tuple) and t[0] == "is" and t[2] == "network::Layer::Dense" and pol]
+        if len(dense) != 1:
+            ok_last = False
+            why.append("a non-panicking path does not require the last layer to be Dense")
+            continue
+        L = dense[0][0][1]
+        a1 = e5.is_call(L, "unwrap", 1)
+        if not (a1 and e5.is_call(a1[0], "last", 1) and e5.is_call(a1[0], "last", 1)[0] == ("field", ("p", "self"), "layers")):
+            ok_last = False
+            why.append("selector is %s" % e5.show(L, 2))
+        act = ("field", ("payload", L, "network::Layer::Dense", 0), "activation")
+        soft = [pol for (t, pol) in facts if isinstance(t, tuple) and t[0] == "is" and t[1] == act and t[2] == "activation::Function::Softmax"]
+        rest = [(t, pol) for (t, pol) in facts if not (isinstance(t, tuple) and t[0] == "is")]
+        if soft and soft[0]:
+            n_soft += 1
+            want = e5.mk_bin("Eq", e5.mk_mcall("tensor::Tensor::argmax", "argmax", Tt, ()), e5.mk_mcall("tensor::Tensor::argmax", "argmax", P, ()))
+            if not (len(rest) == 1 and rest[0][0] == want and acc == ("lit", "1.0" if rest[0][1] else "0.0")):
+                ok_soft = False
+                why.append("softmax path: %s => %s" % ([(e5.show(t, 2), pol) for (t, pol) in rest], e5.show(acc, 2)))
+        elif soft:
+            tf, pf = e5.mk_mcall("tensor::Tensor::get_flat", "get_flat", Tt, ()), e5.mk_mcall("tensor::Tensor::get_flat", "get_flat", P, ())
+            is_one = e5.mk_bin("Eq", ("call", "std::vec::Vec::<T, A>::len", (tf,)), ("lit", "1"))
+            one = [pol for (t, pol) in rest if t == is_one]
+            other = [(t, pol) for (t, pol) in rest if t != is_one]
+            if not one:
+                ok_tol = False
+                why.append("tolerance path without a test on the target length: %s" % [(e5.show(t, 2), pol) for (t, pol) in rest])
+            elif one[0]:
+                n_single += 1
+                d1 = ("bin", "Sub", ("idx", pf, ("lit", "0")), ("idx", tf, ("lit", "0")))
+                d2 = ("bin", "Sub", ("idx", tf, ("lit", "0")), ("idx", pf, ("lit", "0")))
+                okk = len(other) == 1 and any(other[0][0] == e5.mk_bin("Lt", ("call", "core::f32::<impl f32>::abs", (d,)), ("p", "tol")) for d in (d1, d2)) \
+                    and acc == ("lit", "1.0" if other[0][1] else "0.0")
+                if not okk:
+                    ok_tol = False
+                    why.append("single-output path: %s => %s" % ([(e5.show(t, 2), pol) for (t, pol) in other], e5.show(acc, 2)))
+            else:
+                n_general += 1
+                okk = False
+                if not other and isinstance(acc, tuple) and acc[0] == "bin" and acc[1] == "Div":
+                    num, den = acc[2], acc[3]
+                    den_ok = isinstance(den, tuple) and den[0] == "cast" and den[1] == ("call", "std::vec::Vec::<T, A>::len", (tf,)) and den[2] == "f32"
+                    sm = e5.is_call(num, "sum", 1)
+                    mp = e5.is_call(sm[0], "map", 2) if sm else None
+                    zp = e5.is_call(mp[0], "zip", 2) if mp else None
+                    if den_ok and zp and set(zp) == {tf, pf} and isinstance(mp[1], tuple) and mp[1][0] == "closure":
+                        CS = E.loop_summaries.get("cl%s" % mp[1][1])
+                        if CS:
+                            el = ("elem", CS["recv"], "cl%s" % mp[1][1])
+                            d1 = ("bin", "Sub", e5.mk_proj(el, 0), e5.mk_proj(el, 1))
+                            d2 = ("bin", "Sub", e5.mk_proj(el, 1), e5.mk_proj(el, 0))
+                            tests = [e5.mk_bin("Lt", ("call", "core::f32::<impl f32>::abs", (d,)), ("p", "tol")) for d in (d1, d2)]
+                            cps = [q for q in CS["paths"] if q.exit is None]
+                            okk = len(cps) == 2 and all(len(q.pc) == 1 and q.pc[0][0] in tests and q.val == ("lit", "1.0" if q.pc[0][1] else "0.0") for q in cps)
+                if not okk:
+                    ok_tol = False
+                    why.append("multi-output path: accuracy = %s" % short(e5.show(acc, 3), 200))
+        else:
+            ok_last = False
+            why.append("a path does not depend on the last layer's activation")
+    ctx.check("R12.3", "selected-by-last-layer", ok_last and L is not None, "accuracy-selector", where, "the last layer must be Dense (other kinds are rejected); its activation selects the rule",
+              "; ".join(why))
+    ctx.check("R12.3", "selected-by-activation", n_soft >= 1 and (n_single + n_general) >= 1, "activation-selector", where, "Softmax => argmax agreement, otherwise tolerance rule")
+    ctx.check("R12.3", "softmax-argmax-agreement", ok_soft and n_soft == 2, "softmax-accuracy:" + short("; ".join(w for w in why if w.startswith("softmax")), 100), where,
+              "1 iff argmax(target) == argmax(prediction)", "; ".join(why))
+    ctx.check("R12.3", "tolerance-rule", ok_tol and n_single == 2 and n_general == 1, "tolerance-accuracy:" + short("; ".join(w for w in why if not w.startswith("softmax")), 100), where,
+              "single output: [|p-t| < tol]; otherwise mean over components of [|t-p| < tol] (strict)", "; ".join(why))
     fa = ctx.fn("tensor::Tensor::argmax")
     t = pretty(fa["body"])
     ok = "data.iter().enumerate().max_by(|(_, a), (_, b)| a.partial_cmp(b).unwrap()).unwrap().0" in t
@@ -229,8 +280,7 @@ def _tail(n):
 def run(ctx):
     ctx.guard("R12.1", "predict", r1, ctx)
     r = ctx.guard("R12.2", "validate", r2, ctx)
-    if r:
-        ctx.guard("R12.3", "accuracy", r3, ctx, *r)
+    ctx.guard("R12.3", "accuracy", r3, ctx)
     ctx.floor("R12.1", 3, "")
     ctx.floor("R12.2", 7, "")
     ctx.floor("R12.3", 5, "")
